@@ -31,7 +31,7 @@ ASSUMPTIONS = ['float weights only (JSON has no bool/int tensor type)', 'sum-pro
 
 def plan(prop, tier):
     if tier == 'quick':
-        return {'runs': 3000, 'cap': 30.0, 'det_runs': 40}
+        return {'runs': 3000, 'cap': 30.0, 'det_runs': 40, 'legs': [{'hashseed': h} for h in (0, 1, 2, 3)]}
     return {'cap': 60.0, 'budget_s': 900, 'legs': [{'hashseed': h} for h in (0, 1, 2, 3)]}
 
 
